@@ -99,12 +99,36 @@ let do_mop (w : string array) : unit =
   | None -> print_string "FUEL\n"
   | Some m' -> Printf.printf "0 %s\n" (print_mstate m')
 
+(* CHK <lagged> <G> ST <state tokens>  ->  1 | 0   (InvModel.consistent_check; sound by C13_consistent_check_sound) *)
+let do_chk (w : string array) : unit =
+  let p = ref 1 in
+  let next () = let s = w.(!p) in Stdlib.incr p; s in
+  let ni () = int_of_string (next ()) in
+  let nn () = nat_of_int (ni ()) in
+  let nb () = ni () <> 0 in
+  let lagged = nb () in
+  let g = nn () in
+  let tabs = if lagged then gen_tables_lagged else gen_tables in
+  if next () <> "ST" then failwith "ST expected";
+  let nobj = ni () in
+  let st = List.init nobj (fun _ ->
+      let cls = nn () in let nf = ni () in
+      let fs = List.init nf (fun _ ->
+          let av = nb () in let en = nb () in let rc = z_of_int (ni ()) in
+          let na = ni () in let alts = List.init na (fun _ -> nn ()) in
+          { fs_avail = av; fs_enabled = en; fs_rc = rc; fs_alt = alts }) in
+      let nch = ni () in let ch = List.init nch (fun _ -> nn ()) in
+      let npa = ni () in let pa = List.init npa (fun _ -> nn ()) in
+      { o_class = cls; o_fs = fs; o_children = ch; o_parents = pa }) in
+  print_string (if consistent_check tabs st g then "1\n" else "0\n")
+
 let () =
   try
     while true do
       let line = input_line stdin in
       let w = Array.of_list (words line) in
       if Array.length w > 0 && w.(0) = "MOP" then do_mop w
+      else if Array.length w > 0 && w.(0) = "CHK" then do_chk w
       else if Array.length w > 0 then begin
         let p = ref 1 in
         let next () = let s = w.(!p) in Stdlib.incr p; s in
